@@ -12,9 +12,14 @@ E2 bounded grammar enumeration on the real Substance class.  Four disjoint strat
              substituted species) on the plain formula;
   algebra    a + b, a * n, (a + b) * n, a * n + b on substances built from a list of formulas.
   history    E1 exploration of operation histories on LIVE substances: start objects (CO2 from string and from
-             dictionary, Ca(OH)2) x every sequence of 1..2 (thorough 3) operations from {add(existing species, n),
-             add(new species, n), + substance sharing a species, + disjoint substance, * k}, unpruned; after the
-             last step the object is compared with the reference counts dict.  In every stratum the totals the object
+             dictionary, Ca(OH)2, the single-species formulas O and (N)) x every sequence of 1..2 (thorough 3)
+             operations from {add(existing species, n), add(new species, n), + substance sharing a species,
+             + disjoint substance, + Element object (existing / new species), * k}, unpruned; after the last step the
+             object is compared with the reference counts dict, the operands of every non-mutating step are re-read
+             (they must still hold their own counts), the bystander formulas H2O, Ca(OH)2, O, (N), NaCl are
+             constructed afresh and compared with their expansions (state must not cross objects), and the final
+             object is re-read.  Module / class level containers of the materials modules are restored after every
+             case (and counted in the evidence when something had to be restored).  In every stratum the totals the object
              itself holds (composite_mass / proportion_norm = "Total mass" / "Total number" of print()) must equal
              the count-weighted sums as well, not only the 'sum' row of the table.
 
@@ -80,12 +85,19 @@ HIST_STARTS = {          # id -> (constructor argument, counts written by hand)
     "CO2:str": ("CO2", {"C": 1, "O": 2}),
     "CO2:dict": ({"C": 1, "O": 2}, {"C": 1, "O": 2}),
     "Ca(OH)2:str": ("Ca(OH)2", {"Ca": 1, "O": 2, "H": 2}),
+    "O:str": ("O", {"O": 1}),               # single-species formulas: the solver returns its atom unprocessed
+    "(N):str": ("(N)", {"N": 1}),
+}
+BYSTANDERS = {           # fresh substances constructed after every history: formula -> counts written by hand
+    "H2O": {"H": 2, "O": 1}, "Ca(OH)2": {"Ca": 1, "O": 2, "H": 2}, "O": {"O": 1}, "(N)": {"N": 1},
+    "NaCl": {"Na": 1, "Cl": 1},
 }
 HIST_OTHERS = {          # right operands of '+': formula -> counts in component order
     "CO": [["C", 1], ["O", 1]], "OH2": [["O", 1], ["H", 2]], "N2": [["N", 2]],
 }
 HIST_OPS = [["add", "O", 2], ["add", "C", 1], ["add", "N", 1],
-            ["plus", "CO"], ["plus", "OH2"], ["plus", "N2"], ["mul", 2], ["mul", 0.5]]
+            ["plus", "CO"], ["plus", "OH2"], ["plus", "N2"], ["mul", 2], ["mul", 0.5],
+            ["pluscomp", "O", 2], ["pluscomp", "N", 1]]      # + Element('O', proportion=2), + Element('N')
 HDEPTH = dict(quick=2, thorough=3)
 
 
@@ -487,30 +499,63 @@ def _hist_ops(history):
     return [["plus", HIST_OTHERS[o[1]]] if o[0] == "plus" else o for o in history]
 
 
+def _prefixed(bad, prefix, extra_tag):
+    if bad is not None:
+        bad["behaviour"] = prefix + ":" + bad["behaviour"]
+        bad["tags"] = sorted(set(bad["tags"]) | {extra_tag})
+    return bad
+
+
 def check_history(start, natural, history):
-    """apply the history to a live Substance; compare the final object with the reference counts"""
-    from scinumtools.materials import Substance
+    """apply the history to a live Substance; compare the final object with the reference counts; then re-read the
+    operands of every non-mutating step, construct the bystander formulas afresh (state must not cross objects) and
+    re-read the final object once more"""
+    from scinumtools.materials import Substance, Element
     arg, counts0 = HIST_STARTS[start]
     case = dict(start=start, natural=natural, history=history)
     mops = _hist_ops(history)
     counts = R.model_run(counts0, mops)
     tags = R.history_tags(counts0, mops) + ["natural" if natural else "abundant", "input:" + start.split(":")[1]]
     formulas = [o[1] for o in history if o[0] == "plus"]
+    alive = []
 
     def run():
         obj = Substance(dict(arg) if isinstance(arg, dict) else arg, natural=natural)
         it = iter(formulas)
-        return R.real_run(obj, mops, lambda pairs: Substance(next(it), natural=natural), False)
+        return R.real_run(obj, mops, lambda pairs: Substance(next(it), natural=natural), False,
+                          make_component=lambda k, a: Element(k, proportion=a, natural=natural),
+                          counts=counts0, alive=alive)
     o = outcome(run)
     if o[0] == "err":
         return failure("history", case, "history executed", list(o), tags, "raises:" + o[1]), counts
-    return _compare_substance("history", case, o[1], counts, natural, tags), counts
+    final = o[1]
+    bad = _compare_substance("history", case, final, counts, natural, tags)
+    if bad:
+        return bad, counts
+    for role, obj, c in alive:
+        bad = _prefixed(_compare_substance("history", case, obj, c, natural, tags), role + "-changed", role)
+        if bad:
+            return bad, counts
+    for formula, c in BYSTANDERS.items():
+        o = outcome(Substance, formula, natural=natural)
+        if o[0] == "err":
+            return failure("history", case, "bystander %s constructed" % formula, list(o),
+                           tags + ["bystander:" + formula], "bystander:raises:" + o[1]), counts
+        bad = _prefixed(_compare_substance("history", case, o[1], c, natural, tags), "bystander",
+                        "bystander:" + formula)
+        if bad:
+            return bad, counts
+    bad = _prefixed(_compare_substance("history", case, final, counts, natural, tags), "after-bystanders",
+                    "re-read")
+    return bad, counts
 
 
 # ------------------------------------------------------------------------------------------ plan / shards
 def init_worker():
     from ..isolation import tables_snapshot
+    import scinumtools.materials  # noqa: all sub-modules loaded before the module-state snapshot
     tables_snapshot()
+    R.materials_state_snapshot()
     PT, me, nuc = R.tables()
     # abundances have no ties (the arg-max of the statement is unambiguous)
     for sym, (Z, iso) in PT.items():
@@ -546,8 +591,16 @@ def plan(tier, seed):
     return shards
 
 
+_LEAKS = []
+
+
 def _restore():
+    """put process-wide state back after a case: unit tables and module / class level containers of the materials
+    modules (a cache that crosses objects must not make the next case depend on this one)"""
     from ..isolation import tables_restore
+    leaked = R.materials_state_restore()
+    if leaked:
+        _LEAKS.extend(leaked)
     return tables_restore()
 
 
@@ -665,6 +718,10 @@ def run_shard(desc):
             _restore()
             if len(h) == 2 and len(sh.samples) < 1:
                 sh.sample(dict(start=start, natural=nat, history=h))
+    if _LEAKS:
+        sh.count("module-state-restored", len(_LEAKS))
+        sh.add_extra("module_state_leaks", sorted(set(_LEAKS))[:10])
+        del _LEAKS[:]
     return sh
 
 
@@ -697,7 +754,8 @@ def finish(total, tier, seed):
             raise HarnessError("vacuous run: no case counted under " + key)
     if not any(k.startswith("structure:accepted:deco=2") for k in h):
         raise HarnessError("vacuous run: no 2-decoration structure was accepted")
-    for key in ("add-existing", "add-new", "plus-shared", "plus-shared-last", "plus-disjoint", "mul"):
+    for key in ("add-existing", "add-new", "plus-shared", "plus-shared-last", "plus-disjoint", "mul",
+                "pluscomp-existing", "pluscomp-new"):
         if not h.get("history:last:" + key):
             raise HarnessError("vacuous run: no history ends with " + key)
     hstates = total.sets.get("hstates", set())
@@ -706,7 +764,9 @@ def finish(total, tier, seed):
     return dict(
         states=len(hstates), transitions=total.transitions, traces_validated_against_impl=total.traces,
         max_depth=total.max_depth, max_nesting=max(total.sets.get("nesting", {0})),
+        module_state_restored=h.get("module-state-restored", 0),
         history_bounds=dict(starts=sorted(HIST_STARTS), operations=HIST_OPS, depth=HDEPTH[tier],
+                            bystanders=sorted(BYSTANDERS),
                             isotope_modes=["natural", "abundant"], pruning="none (every history executed)"),
         bounds=dict(species="118 elements x {unspecified, each of 354 tabulated isotopes} x charge {none,+,-,+2,-3,"
                             "+10,-10,-12,+26,-Z (two-digit ones where |q|<=Z)} "
@@ -734,9 +794,10 @@ MANIFEST = dict(
          "alphabet x counts x separators, every formula shape up to 5 species occurrences / 3 groups / nesting 3 with "
          "<= 1 decoration and up to 4 / 2 / 2 with <= 2 decorations (count, blank or explicit '+', explicit '* n', "
          "substituted or repeated species), a+b, a*n, (a+b)*n, a*n+b over 10 formulas, and every history of <= 2 "
-         "(thorough 3) operations {add existing/new species, + sharing/disjoint substance, * k} on 3 live start "
-         "substances in both modes, compared with a counts dict after the last step (table rows, sum row and the "
-         "object's own total mass / total number). Counts compared exactly, "
+         "(thorough 3) operations {add existing/new species, + sharing/disjoint substance, + Element, * k} on 5 live "
+         "start substances in both modes, compared with a counts dict after the last step (table rows, sum row and the "
+         "object's own total mass / total number), with re-read of all operands and 5 freshly constructed bystander "
+         "formulas after every history. Counts compared exactly, "
          "Z/N/e totals to 1e-12, masses to 1e-10. Quick runs the core plus one seed-selected window of 32.",
     note="Trusted: PT_DATA and four unit-table rows as data, the 5-line reference expansion. Not covered: explicit "
          "operators without blanks, '* n' mixed with implicit addition, unspecified isotopes of the 34 elements "
